@@ -54,7 +54,7 @@ DEFS = [
     # ---------------------------------------------------------------- C02: operators
     flat('c02_plus_in_alt', [R(cat(alt(plus(c('a')), c('b')), c('c'))), R(c('a')), R(c('b')), R(c('c'))], ['C02'], N=4),
     flat('c02_opt_group', [R(cat(c('x'), opt(cat(c('y'), plus(c('z')))))), R(c('z')), R(c('y'))], ['C02'], N=4),
-    flat('c02_any_ranges_literals', [R(cat(ANY, c('b'))), R(cset(rng('a', 'c'))), R(cat(c('a'), c('a'))), R(c('z'))], ['C02', 'C11'], N=3),
+    flat('c02_any_ranges_literals', [R(cat(ANY, c('b'))), R(cset(rng('a', 'c'))), R(cat(c('a'), c('a'))), R(c('z'))], ['C01', 'C02', 'C11'], N=3),
     flat('c02_overlapping_ranges', [R(cat(cset(rng('a', 'f')), cset(rng('d', 'k')))), R(cset(rng('a', 'c'), rng('b', 'e'))),
                                     R(cat(star(c('x')), c('y')))], ['C02', 'C11'], N=3),
     flat('c02_nested_repetition', [R(cat(star(opt(c('a'))), c('b'))), R(plus(cat(c('a'), star(c('c'))))), R(c('c'))], ['C02'], N=4),
@@ -73,6 +73,15 @@ DEFS = [
     flat('c11_diff_inside_piece', [R(diff(cset(rng('0', '5'), rng('7', '9')), cset(rng('3', '8'))))], ['C11'], N=1),
     flat('c11_chained_diff', [R(diff(diff(cset(rng('a', 'f'), rng('m', 'r'), rng('x', 'z')), c('a')), cset(rng('e', 'y'))))], ['C11'], N=1),
     flat('c11_union_diff_any', [R(diff(alt(diff(ANY, cset(rng('a', 'z'))), cset(rng('m', 'p'))), cset('n', 'é')))], ['C11'], N=1),
+    # bracket sets as operands of `#` are compiled by regex_to_range_map (not by add_re): nested, staggered, repeated and single-character pieces
+    flat('c11_nested_pieces', [R(diff(cset(rng('a', 'z'), rng('e', 'k')), c('x')))], ['C11'], N=1),
+    flat('c11_char_inside_range', [R(diff(cset(rng('0', '9'), '5'), c('0')))], ['C11'], N=1),
+    flat('c11_unsorted_overlapping', [R(diff(diff(cset(rng('m', 'p'), rng('a', 'z'), 'c'), cset(rng('a', 'b'))), c('z')))], ['C11'], N=1),
+    flat('c11_staggered', [R(diff(cset(rng('a', 'k'), rng('e', 'z'), rng('c', 'f')), cset('x', rng('a', 'b'))))], ['C11'], N=1),
+    flat('c11_removed_set_overlaps', [R(diff(cset(rng('a', 'z')), cset(rng('c', 'f'), rng('e', 'k'), 'j', rng('x', 'z'), 'a')))], ['C11'], N=1),
+    flat('c11_var_operands', [R(diff(alt(var('lo'), var('dg')), var('vw')))], ['C11'], N=1,
+         lets=[('lo', cset(rng('a', 'z'))), ('dg', cset(rng('0', '9'))), ('vw', cset('a', 'e', 'i', 'o', 'u', rng('3', '5')))]),
+    flat('c11_adjacent_pieces', [R(diff(cset(rng('a', 'c'), rng('d', 'f'), 'g'), cset('d')))], ['C11'], N=1),
     flat('c11_builtin_minus_range', [R(diff(('builtin', 'ascii_alphanumeric'), cset(rng('5', 'c'))))], ['C11'], N=1),
 
     # ---------------------------------------------------------------- C03: rule sets
@@ -130,7 +139,7 @@ DEFS = [
     flat('c10_kinds_all', [R(c('s'), 'skip'), R(c('c'), 'continue'), R(c('r'), 'reset_continue'), R(c('t'), 'return'), R(c('k'), 'tok'),
                            R(s('tt'), 'return')], ['C10'], N=2, m=3, tier='thorough', Nt=3),
     # a shorter candidate's saved position must not outlive the selection of a longer rule whose action continues
-    flat('c10_stale_accept', [R(c('-'), 'return'), R(s('--'), 'continue'), R(c('b'), 'return')], ['C10', 'C03', 'C01'], N=2, m=2, Nt=3),
+    flat('c10_stale_accept', [R(c('-'), 'return'), R(s('--'), 'continue'), R(c('b'), 'return')], ['C10', 'C03', 'C01', 'C07'], N=2, m=2, Nt=3),
     flat('c10_stale_accept_tail', [R(c('-'), 'return'), R(s('--'), 'continue'), R(c('a'), 'return'), R(cat(cset('a', 'b'), c('x'), c('y')), 'return')],
          ['C10', 'C01'], N=3, m=2, tier='thorough', Nt=3),
 ]
@@ -142,6 +151,18 @@ DEFS += [
                                         rng('0', '4'), rng('6', '9')), c('!'))), R(cset(rng('a', 'z')))], ['C02', 'C13'], N=2, m=1, Nt=3, unwind=12),
     flat('c04_table_in_ctx', [R(c('x'), ctx=cat(cset(rng('a', 'b'), rng('d', 'e'), rng('g', 'h'), rng('j', 'k'), rng('m', 'n'), rng('p', 'q'), rng('s', 't'), rng('v', 'w'), rng('y', 'z'),
                                                      rng('0', '4'), rng('6', '9')), c('!'))), R(c('x')), R(ANY)], ['C04'], N=3, m=1, unwind=12, tier='thorough', Nt=3),
+    # a state with more than 8 range transitions AND character transitions on code points at the start / end / inside of those ranges
+    flat('c02_chars_vs_many_ranges', [R(plus(cset(rng('a', 'b'), rng('d', 'e'), rng('g', 'h'), rng('j', 'k'), rng('m', 'n'), rng('p', 'q'), rng('s', 't'), rng('v', 'w'), rng('y', 'z'), rng('0', '4'), rng('6', '9')))), R(s('b!')), R(s('w?')), R(s('0.')), R(s('k4'))], ['C02', 'C01'], N=3, m=1, unwind=12),
+    # rule-set-local `let`s with the same name bound to different regexes, both used as right contexts
+    multi('c04_local_lets', [
+        ('Init', [R(plus(cset(rng('a', 'b'))), 'return', ctx=var('term')), R(plus(cset(rng('a', 'b'))), 'return'), R(c('{'), 'switch', to='B'), R(cset(';', ':'), 'return')]),
+        ('B', [R(plus(cset(rng('a', 'b'))), 'return', ctx=var('term')), R(plus(cset(rng('a', 'b'))), 'return'), R(c('}'), 'switch', to='Init'), R(cset(';', ':'), 'return')]),
+    ], ['C04', 'C03'], N=3, m=2, set_lets={'Init': [('term', c(';'))], 'B': [('term', c(':'))]}),
+    # skipped text directly before the end of input, then a `$` rule / a failure that looks at the match start
+    flat('c10_skip_then_eof', [R(c(' '), 'skip'), R(EOF, 'return'), R(c('a'), 'return'), R(cat(c('('), c(')')), 'return')], ['C10', 'C05', 'C06'], N=2, m=3),
+    # the Default-state constructors (`new`, `new_from_iter`) on a definition with a `$` rule in Init (empty input included)
+    flat('c14_new_from_iter', [R(EOF, 'return'), R(plus(cset(rng('a', 'z'))), 'return'), R(c(' '), 'skip')], ['C14'], N=2, m=2, via='new_from_iter'),
+    flat('c14_new_str', [R(EOF, 'return'), R(plus(cset(rng('a', 'z'))), 'return'), R(ANY, 'return')], ['C14'], N=2, m=1, via='new', width=True, unwind=10),
     # comment-like loop over a complemented class, shares its first character with an operator
     flat('c01_comment_loop', [R(cat(s('/*'), star(diff(ANY, c('*'))), s('*/')), 'return'), R(c('/'), 'return'), R(c('*'), 'return'), R(ANY, 'return')], ['C01', 'C02'], N=4, m=1, tier='thorough', Nt=5),
     # long literal sharing prefixes with shorter literals and an identifier class
